@@ -379,7 +379,15 @@ package core
 //@   ensures result != nil && !old(alloc(result))
 //@ func core.newMetadataWithJournalPath property C03
 //@   ensures result != nil && !old(alloc(result))
-//@ func core.NewChunk property C03
+// (chunkwidth[0]: the zero-padding width NewChunk was last given; both places that create the
+// chunks of a fork - doChunks when the split completes, updateId when mrp re-attaches - must
+// pad for the NUMBER of chunks, or a restarted mrp looks for chnk0 where chnk00 was made)
+//@ func util.WidthForInt property C03 C05
+//@   trusted
+//@   pure
+//@   opt deterministic on
+//@ func core.NewChunk property C03 C05
+//@   effect chunkwidth 0 := chunkIndexWidth
 //@   ensures @owner result.fork == fork
 //@   ensures @a result != nil && !old(alloc(result))
 //@   ensures @b result.metadata != nil
@@ -393,12 +401,21 @@ package core
 //@   ensures @flag ghost(runs) != old(ghost(runs)) ==> self.split_has_run
 //@   ensures @norun result != "ready" ==> ghost(runs) == old(ghost(runs))
 
+//@ func core.Chunk.mkdirs property C03 C02 C05
+//@   trusted
+//@   ensures ghost(runs) == old(ghost(runs)) && ghost(completes) == old(ghost(completes))
 //@ func core.Fork.doChunks property C03 C02 C05
 //@   requires @phase state == "split_complete"
 //@   ensures @values result == "split_complete" || result == "chunks_complete"
 //@   ensures @skip result == "chunks_complete" ==> ghost(runs) == old(ghost(runs))
 //@   loop 1 invariant ghost(runs) == old(ghost(runs)) && state == "split_complete"
 //@   loop 2 invariant state == "split_complete"
+// every chunk the split defined becomes a chunk of the fork (none is left out, whatever happens
+// while its directory is made): the join waits for all of them
+// (stated as the invariant of the loop over the chunk definitions: after k definitions the fork has k chunks)
+//@   loop 1 invariant 0 <= iter && len(self.chunks) == iter && self.stageDefs == atloop(self.stageDefs) && len(self.stageDefs.ChunkDefs) == atloop(len(self.stageDefs.ChunkDefs))
+//@   loop 1 invariant iter > 0 ==> ghost(chunkwidth)[0] == fn(util.WidthForInt, len(self.stageDefs.ChunkDefs))
+//@   loop 2 invariant len(self.chunks) == atloop(len(self.chunks)) && self.stageDefs == atloop(self.stageDefs) && len(self.stageDefs.ChunkDefs) == atloop(len(self.stageDefs.ChunkDefs))
 
 //@ func core.Fork.doJoin property C03 C02 C06 C01
 //@   requires @phase state == "chunks_complete"
@@ -869,6 +886,7 @@ package core
 //@   ensures @reload self.path != old(self.path) ==> ghost(readinto)[self.split_metadata] > old(ghost(readinto))[self.split_metadata]
 //@   ensures @journalname self.fqname == fn(syntax.CallGraphNode.GetFqid, self.node.call) + "." + fn("strings.Replacer.Replace", core.encodeJournalName, self.id)
 //@   ensures @id self.id == fn(core.ForkId.ForkIdString, id).0
+//@   loop 1 invariant 0 <= iter && (iter > 0 ==> ghost(chunkwidth)[0] == fn(util.WidthForInt, len(self.stageDefs.ChunkDefs))) && self.stageDefs == atloop(self.stageDefs) && len(self.stageDefs.ChunkDefs) == atloop(len(self.stageDefs.ChunkDefs))
 //@   loop 1 invariant self.fqname == atloop(self.fqname) && self.id == atloop(self.id) && self.node == atloop(self.node) && self.path == atloop(self.path) && self.split_metadata == atloop(self.split_metadata) && ghost(readinto) == atloop(ghost(readinto))
 
 // ---------------------------------------------------------------- C16 the split status of an argument survives JSON -> call
